@@ -89,7 +89,7 @@ def ensure_probe():
     except OSError:
         pass
     env = dict(os.environ, CARGO_NET_OFFLINE="true")
-    env.pop("RUSTFLAGS", None)
+    env["RUSTFLAGS"] = "--cfg chrono_verif"      # read-only hooks (tz_info::verif) for the rule.rs probes
     r = subprocess.run(["cargo", "build", "--offline"], cwd=d, env=env, capture_output=True, text=True)
     if r.returncode != 0:
         raise RuntimeError("probe build failed: " + r.stderr[-1500:])
